@@ -228,3 +228,74 @@ class SortAxis(Contract):
     def canaries(self, S, case, env, result):
         d = case["d"]
         yield "labels-unchanged", S.forall(0, S.n(env["labels"][d]), lambda k: S.at(result.axes[d].values, k) == S.at(env["labels"][d], k))
+
+
+class GetAlignedAxes(Contract):
+    """_get_aligned_axes(arrays, join, axis, sort): one common axis per dimension (in first-occurrence order of the
+    dimension names), ascending when sort=True -- and, the clause C06 / C15 turn on: NO axis of any input array is
+    modified (labels, order, name), whatever join / sort.  The real bodies of _common_axis, Axis.union and
+    Axis.intersection are executed here (not their contracts): object identity is exactly what a frame clause is about,
+    and it is what a contract stub abstracts away.  Their set-level behaviour has its own contracts (AxisUnion ...).
+    [C06, C15]"""
+    target = "dimarray.core.align:_get_aligned_axes"
+    props = ("C06", "C15")
+    inlined = ("get_dims", "_common_axis", "Axis.union", "Axis.intersection", "_check_axes_merge", "Axis.sort", "Axis.copy", "Axes.append")
+    max_paths = 900
+
+    CONFIGS = {
+        "one-array-x0": [["x0"]],
+        "one-array-x0x1": [["x0", "x1"]],
+        "two-arrays-sharing-x0": [["x0"], ["x0"]],
+        "two-arrays-x0-and-x0x1": [["x0"], ["x0", "x1"]],
+        "two-arrays-disjoint-dims": [["x0"], ["x1"]],
+    }
+
+    def cases(self, tier):
+        for cfg in self.CONFIGS:
+            for join in ("outer", "inner"):
+                for sort in (False, True):
+                    yield {"name": "%s-%s-%s" % (cfg, join, "sort" if sort else "nosort"), "cfg": cfg, "join": join, "sort": sort}
+
+    def bound_lengths(self, case):
+        names = []
+        for t, dims in enumerate(self.CONFIGS[case["cfg"]]):
+            names += ["a%d.%s.n" % (t, d) for d in dims]
+        return names
+
+    def setup(self, S, case):
+        arrays, labels = [], []
+        for t, dims in enumerate(self.CONFIGS[case["cfg"]]):
+            axes, labs = [], {}
+            for d in dims:
+                L = S.array1d("a%d.%s" % (t, d), "f")
+                assume_order(S, L, "unique")
+                labs[d] = (L, S.snapshot(L))
+                axes.append(S.da.Axis(L, d))
+            data = S.arraynd("a%d.data" % t, "f", tuple(S.n(labs[d][0]) for d in dims))
+            arrays.append(S.da.DimArray(data, axes=axes))
+            labels.append(labs)
+        return {"arrays": arrays, "labels": labels, "args": (arrays,), "kwargs": {"join": case["join"], "sort": case["sort"]}}
+
+    def post(self, S, case, env, result):
+        cfg = self.CONFIGS[case["cfg"]]
+        dims = []
+        for ds in cfg:
+            for d in ds:
+                if d not in dims:
+                    dims.append(d)
+        yield "one-axis-per-dimension-in-first-occurrence-order", [ax.name for ax in result] == dims
+        if case["sort"]:
+            for ax in result:
+                v = ax.values
+                yield "sorted-ascending[%s]" % ax.name, S.forall2(0, S.n(v), lambda i, j, v=v: S.at(v, i) <= S.at(v, j))
+        for t, ds in enumerate(cfg):
+            arr = env["arrays"][t]
+            for k, d in enumerate(ds):
+                L, old = env["labels"][t][d]
+                now = arr.axes[k].values
+                yield "input-%d-axis-%s-untouched" % (t, d), S.land(
+                    arr.axes[k].name == d, S.n(now) == S.n(old),
+                    S.forall(0, S.n(old), lambda i, now=now, old=old: S.implies(i < S.n(now), lambda: S.at(now, i) == S.at(old, i))))
+
+    def canaries(self, S, case, env, result):
+        yield "returns-no-axes", len(result) == 0
